@@ -327,10 +327,9 @@ func TestC11Requests(t *testing.T) {
 			"sub":   func(rt *rapid.T) { m.issue(rt, "sub") },
 			"unsub": func(rt *rapid.T) { m.issue(rt, "unsub") },
 			"ping": func(rt *rapid.T) {
+				// (overlapping Pings were excluded while finding F7 was open)
 				if !m.pingAllowed() {
-					m.excludedF7++
-					stats.For("C11").Exclude("F7")
-					rt.Skip("excluded: an earlier Ping may be in its epilogue (open finding F7)")
+					h.label("ping-issued-while-an-earlier-ping-still-runs")
 				}
 				m.issue(rt, "ping")
 			},
@@ -641,13 +640,11 @@ func TestC11Requests(t *testing.T) {
 	})
 }
 
-// TestC11KnownF07 is the dedicated probe of the open finding F7: the epilogue
-// of a Ping whose write failed removes whatever callback sits in the single
-// slot, also the one of a later Ping, which then never learns of its PINGRESP,
-// of a connection loss or of Close. It never fails the run; it reports whether
-// F7 still reproduces.
-func TestC11KnownF07(t *testing.T) {
-	reproduced := false
+// TestC11PingSlotOwnership replays the history of finding F7 (repaired): the
+// epilogue of a Ping whose write failed removed whatever callback sat in the
+// single slot, also the one of a later Ping, which then never learned of its
+// PINGRESP, of a connection loss or of Close.
+func TestC11PingSlotOwnership(t *testing.T) {
 	rapid.Check(t, func(rt *rapid.T) {
 		h := newH(rt, "C11", sim.Options{Config: baseConfig()})
 		defer h.Shutdown(2 * time.Second)
@@ -680,13 +677,10 @@ func TestC11KnownF07(t *testing.T) {
 		// the broker answers B
 		h.App.Step()
 		h.releaseAcks(1)
-		if !h.PollQuiet(200*time.Millisecond, func() bool { return h.IsDone(b) }) {
-			reproduced = true
-			return
-		}
+		h.MustPoll("the later Ping returning: its PINGRESP arrived (an earlier Ping whose write had failed finished its epilogue meanwhile)", func() bool { return h.IsDone(b) })
 		if b.Err != nil {
 			h.Failf("the later Ping returned %v although its PINGRESP arrived", b.Err)
 		}
+		stats.For("C11").Case("ping A fails its write and is held before its epilogue; reconnect; ping B; A resumes; PINGRESP", true, "ping-slot-ownership-history")
 	})
-	stats.For("C11").KnownFinding("F7", reproduced)
 }
